@@ -134,7 +134,7 @@ def gen_values(rng, tier):
                 vals.append(val(p, m, w, 0))
                 if w > 0:
                     vals.append(val(p, m, w, 1, rep="B"))      # the same number on the BigUint arm
-    n = 3000 if tier == "quick" else 40000
+    n = 1500 if tier == "quick" else 40000
     for _ in range(n):
         w = rng.choice(BOUNDARY_W) if rng.random() < 0.6 else rng.randint(1, 300)
         top = (1 << w) - 1
@@ -159,7 +159,7 @@ def gen_words(rng, tier):
     for a in small:
         for b in small:
             out.append([(a, b)])
-    for _ in range(600 if tier == "quick" else 6000):
+    for _ in range(400 if tier == "quick" else 6000):
         n = rng.choice([1, 2, 2, 3, 3, 4, 5, 8, 10])
         ws = []
         for _ in range(n):
@@ -329,7 +329,7 @@ def run(tier, seed, replay):
                 if im != model[i]:
                     mism.append(i)
             # guard on the extracted code
-            sample = rng.sample(idx, min(len(idx), 400 if tier == "quick" else 2000))
+            sample = rng.sample(idx, min(len(idx), 200 if tier == "quick" else 2000))
             terms = []
             for i in sample:
                 t = ml[i].split()
